@@ -95,5 +95,68 @@ TR_STUBS(uint32_t, char32_t)
 TR_STUBS(int32_t, wchar_t)
 
 /* std::min / std::max on size_t: pure */
-static inline size_t std_min_unsigned_long(size_t a, size_t b) { return b < a ? b : a; }
-static inline size_t std_max_unsigned_long(size_t a, size_t b) { return a < b ? b : a; }
+static inline size_t std_min_ulong(size_t a, size_t b) { return b < a ? b : a; }
+static inline size_t std_max_ulong(size_t a, size_t b) { return a < b ? b : a; }
+
+/* ---- char_traits<T>::compare / find / length (memcmp / memchr / strlen) -------------------------------
+ * compare: 0 iff the ranges agree; otherwise the sign of the first differing element under char_traits<T>::lt
+ * (unsigned char order for char).  The first difference index is exported as witness TRC_W; when the call
+ * examines the probe position TRC_PROBE (set by a harness), the witness for that candidate is recorded in
+ * TRC_WIT (DESIGN.md section 3, "existential witnesses through stubs").                                   */
+#ifdef TR_NO_FACTS   /* forwarding-only jobs: the element facts of compare() are not needed, only WHAT was compared */
+#define TR_FACTS 0
+#else
+#define TR_FACTS 1
+#endif
+size_t TRC_W, TRC_N, TRC_WIT; int TRC_R, TRC_HIT; const void *TRC_A, *TRC_B, *TRC_PROBE;
+#define TR_CMP(T, UT, sfx) \
+int tr_compare_##sfx(const T *a, const T *b, size_t n) { \
+    __CPROVER_assert(n == 0 || (__CPROVER_r_ok(a, n * sizeof(T)) && __CPROVER_r_ok(b, n * sizeof(T))), "tr_compare.precondition: both ranges readable for n elements"); \
+    int r = nondet_int(); size_t w = nondet_size_t(); \
+    if (n == 0) r = 0; \
+    if (TR_FACTS) { \
+    if (r == 0) { __CPROVER_assume((GI0 < n ==> a[GI0] == b[GI0]) && (GI1 < n ==> a[GI1] == b[GI1]) && (GI2 < n ==> a[GI2] == b[GI2])); w = n; } \
+    else { __CPROVER_assume(w < n && a[w] != b[w] && ((r < 0) == ((UT)a[w] < (UT)b[w])) \
+           && (GI0 < w ==> a[GI0] == b[GI0]) && (GI1 < w ==> a[GI1] == b[GI1]) && (GI2 < w ==> a[GI2] == b[GI2])); } \
+    } \
+    TRC_W = w; TRC_N = n; TRC_R = r; TRC_A = a; TRC_B = b; \
+    if ((const void *)a == TRC_PROBE) { TRC_HIT = 1; TRC_WIT = w; } \
+    return r; \
+}
+TR_CMP(char, unsigned char, char)
+TR_CMP(uint16_t, uint16_t, char16_t)
+TR_CMP(uint32_t, uint32_t, char32_t)
+TR_CMP(int32_t, int32_t, wchar_t)
+/* find: first position holding c, or NULL; every earlier position differs (known at the probe pointer TRF_PROBE) */
+const char *TRF_PROBE; const char *TRF_S, *TRF_RET; size_t TRF_N; char TRF_C; int TRF_CALLS;   /* arguments / result of the last call, for forwarding postconditions */
+const char *tr_find_char(const char *s, size_t n, char c) {
+    __CPROVER_assert(n == 0 || __CPROVER_r_ok(s, n), "tr_find.precondition: range readable for n elements");
+    size_t k = nondet_size_t();
+    TRF_S = s; TRF_N = n; TRF_C = c; TRF_CALLS++;
+    if (nondet_bool() || n == 0) {
+        __CPROVER_assume(!(__CPROVER_same_object(TRF_PROBE, s) && TRF_PROBE >= s && TRF_PROBE < s + n) || *TRF_PROBE != c);
+        TRF_RET = (const char *)0;
+        return (const char *)0;
+    }
+    __CPROVER_assume(k < n && s[k] == c);
+    __CPROVER_assume(!(__CPROVER_same_object(TRF_PROBE, s) && TRF_PROBE >= s && TRF_PROBE < s + k) || *TRF_PROBE != c);
+    TRF_RET = s + k;
+    return s + k;
+}
+/* length: index of the first 0 (the string must be NUL-terminated inside its object) */
+const void *TRL_S; size_t TRL_RET; int TRL_CALLS;   /* argument / result of the last length() call */
+#define TR_LEN(T, sfx) \
+size_t tr_length_##sfx(const T *s) { \
+    size_t k = nondet_size_t(); \
+    if (TRL_CALLS > 0 && TRL_S == (const void *)s) { TRL_CALLS++; return TRL_RET; }   /* length() is a function of its argument */ \
+    TRL_S = s; TRL_CALLS++; \
+    __CPROVER_assume(k < ST_MAXN && __CPROVER_r_ok(s, (k + 1) * sizeof(T)) && s[k] == 0); \
+    __CPROVER_assume((GI0 < k ==> s[GI0] != 0) && (GI1 < k ==> s[GI1] != 0)); \
+    TRL_RET = k; \
+    return k; \
+}
+TR_LEN(char, char)
+TR_LEN(uint16_t, char16_t)
+TR_LEN(uint32_t, char32_t)
+TR_LEN(int32_t, wchar_t)
+TR_LEN(unsigned char, unsigned_char)
